@@ -108,12 +108,12 @@ Lemma C17_unwinding_removes_temp_l :
   apply (interrupted cfg fn tok now chunk f0 ops k true) f0 (temp_name cfg fn tok) = None.
 Proof. intros. apply unwinding_removes_temp; auto using table_unwind_rolls_back. Qed.
 
-Lemma C17_write_error_swallowed_refuted_l :
-  exists cfg fn tok now chunk (f0 : fs) (ws : list bytes) j,
-  token_ok tok = true /\ digits_ok now = true /\ same_fs cfg = true /\
-  gen.T17.SWALLOW_WRITE_ERROR_SITES <> [] /\
-  let t := apply (effects cfg fn tok now chunk f0 (swallowed_ops ws j)) f0 fn in
-  ~ (t = f0 fn \/ t = Some (concat ws) \/ (f0 fn = None /\ t = Some [])).
+Lemma C17_atomic_under_write_error_l :
+  forall cfg fn tok now chunk (f0 : fs) (ws : list bytes) k inited j,
+  token_ok tok = true -> digits_ok now = true -> same_fs cfg = true ->
+  let t := apply (write_error_effects cfg fn tok now chunk f0 ws k inited j) f0 fn in
+  t = f0 fn \/ t = Some (concat ws) \/ (f0 fn = None /\ t = Some []).
 Proof.
-  exists w_cfg_s, w_fn, w_tok, w_now, 6%nat, w_f0, w_ws, 1%nat. exact swallowed_refuted.
+  intros cfg fn tok now chunk f0 ws k inited j Ht Hn Hs. unfold write_error_effects.
+  rewrite table_no_swallow. now apply C17_atomic_under_unwinding_l.
 Qed.
